@@ -127,12 +127,16 @@ class ProgGen:
             ret_inner = gen_type(rng, generics)
         ret = P(rng.choice(["StdResult"]), ret_inner) if not self_prefix else P("Result", ret_inner, PP("Self", "Error"))
         if kind == "query" and rng.random() < 0.15:
-            # explicit response type through an alias
+            # explicit response type: with an aliased result (the documented use), or next to a literal Result of another type
             resp = "RespAlias"
-            ret = P("AliasedResult")
+            if rng.random() < 0.5:
+                ret = P("AliasedResult")
         attrs.append(sv_msg(kind, resp=resp))
         if kind in ("exec", "query", "sudo") and rng.random() < 0.2:
-            attrs.append(sv_attr(rng.choice(['serde(rename = "renamed_%s")' % name, "doc(hidden)", 'serde(alias = "al")'])))
+            # forwarded attributes may be written above or below `sv::msg`, and there may be several
+            for _ in range(rng.choice([1, 1, 2])):
+                attrs.insert(rng.randint(0, len(attrs)),
+                             sv_attr(rng.choice(['serde(rename = "renamed_%s")' % name, "doc(hidden)", 'serde(alias = "al")'])))
         if rng.random() < 0.1:
             attrs.append(foreign("inline"))
         args = self.gen_args(generics)
